@@ -16,6 +16,7 @@ class C06(SimCheck):
         "(8) ResendRequest(b, e) with b, e from {0, 1, mid, last, last+-1, far, e<b, negative}, repeats over the "
         "same range being the main bias, in ACTIVE and while the endpoint itself awaits a resend, with "
         "should_replay / on_state_change suspension and back-pressure; the reply chain, journal, counters "
+        "1 run in 6 ends with a request read while the application's disconnect() is suspended in drain() (it must be begun); "
         "and state are compared with the specification after every request; non-trivial = >= 3 chooser actions"
     )
     assumptions = [
